@@ -127,6 +127,9 @@ def sampler_edits(mod):
             out.append({"k": "map1", "i": i, "n": "note_samples", "v": v})
     for en in c16.ENVS:
         out.append({"k": "env_rebind", "e": en, "n": "rebind"})
+    # the embedded effect removed / replaced on the loaded object BEFORE anything has read it
+    out.append({"k": "sm_effect_set", "n": "none", "v": None})
+    out.append({"k": "sm_effect_set", "n": "filter", "v": "Filter"})
     return out
 
 
@@ -157,6 +160,10 @@ def apply_sampler_edit(mod, e):
         mod.note_samples[keys[e["i"]]] = e["v"]
     elif k == "env_rebind":
         c16.apply_spec(mod, [{"k": "env_rebind", "e": e["e"]}])       # a NEW envelope object replaces the loaded one
+    elif k == "sm_effect_set":
+        import rv.api as rv
+
+        mod.effect = None if e["v"] is None else rv.Synth(getattr(rv.m, e["v"])())
 
 
 def project_edits(obj):
@@ -236,7 +243,7 @@ def apply_edit(obj, mi, e):
     elif k == "praw":
         pat = obj.patterns[e["p"]]
         pat.raw_data = bytes((i * 7 + 3) % 120 if i % 8 == 0 else (i % 100 if i % 8 == 1 else 0) for i in range(pat.lines * pat.tracks * 8))
-    elif k in ("smp_field", "smp_loop", "smp_drop", "env_field", "map1", "env_rebind"):
+    elif k in ("smp_field", "smp_loop", "smp_drop", "env_field", "map1", "env_rebind", "sm_effect_set"):
         apply_sampler_edit(obj.modules[mi] if mi is not None else obj.module, e)
     else:
         mod = obj.modules[mi] if mi is not None else obj.module
@@ -247,7 +254,7 @@ def module_path(mi):
     return "module" if mi is None else f"modules[{mi}]"
 
 
-PRESAVE_KINDS = {"env_rebind", "cell", "pattr", "pclear", "pbulk", "praw", "elem", "fill", "mcmap", "opt", "cmid", "smp_field", "smp_loop",
+PRESAVE_KINDS = {"env_rebind", "sm_effect_set", "cell", "pattr", "pclear", "pbulk", "praw", "elem", "fill", "mcmap", "opt", "cmid", "smp_field", "smp_loop",
                  "smp_drop", "env_field", "map1", "ip_elem", "ip_cmid", "ip_mcmap", "mm_count", "mm_label", "mm_map",
                  "mm_inner_module", "mm_inner_name", "sm_env_append", "sm_env_point0", "sm_env_flag", "sm_notemap",
                  "sm_sample", "sm_effect", "sm_vibrato", "sv_harmonic", "mmud"}
@@ -393,6 +400,10 @@ def postcondition(e, s1, mi):
         if k == "map1":
             got = pl["note_samples"][e["i"]]
             return ("note-map", got) if got != e["v"] else None
+        if k == "sm_effect_set":
+            eff = pl.get("effect")
+            got = None if eff is None else eff["module"]["type"]
+            return ("embedded-effect", got) if got != e["v"] else None
         if k == "env_field" and e["n"] != "points":
             en = e["e"]
             env = pl["envelopes"][en if en.startswith("effect") else en.replace("_envelope", "")]
